@@ -161,23 +161,24 @@ type heapSnap struct {
 }
 
 type State struct {
-	x         *Exec
-	script    *scriptNode
-	heap      map[string]Term
-	epoch     int
-	cells     map[*Cell]Val
-	ghost     map[string]Term
-	frames    []*Frame
-	panicking *Term
-	path      []string
-	steps     int
-	declared  map[string]bool // lazily declared symbols (shared-by-copy)
-	draws     []string        // symbols returned by interface draw calls, for replay
-	entry     *heapSnap
-	dead      bool
-	marks     []havocMark
-	panicSite string
-	panicWhy  string
+	x          *Exec
+	script     *scriptNode
+	heap       map[string]Term
+	epoch      int
+	cells      map[*Cell]Val
+	ghost      map[string]Term
+	frames     []*Frame
+	panicking  *Term
+	path       []string
+	steps      int
+	declared   map[string]bool // lazily declared symbols (shared-by-copy)
+	draws      []string        // symbols returned by interface draw calls, for replay
+	entry      *heapSnap
+	dead       bool
+	marks      []havocMark
+	panicSite  string
+	panicWhy   string
+	interfered map[string][]Term // heap (key, ref) pairs changed by the environment (other goroutines)
 }
 
 func (st *State) fork() *State {
@@ -204,6 +205,10 @@ func (st *State) fork() *State {
 	}
 	n.path = append([]string(nil), st.path...)
 	n.draws = append([]string(nil), st.draws...)
+	n.interfered = make(map[string][]Term, len(st.interfered))
+	for k, v := range st.interfered {
+		n.interfered[k] = append([]Term(nil), v...)
+	}
 	if st.panicking != nil {
 		p := *st.panicking
 		n.panicking = &p
